@@ -343,7 +343,14 @@ fn gen_valid_op(src: &mut Src, m: &Forest, small: bool, ctx: &mut Ctx) -> Option
                 7 => Op::NsInsert(e, ["", "p", "q"][src.choice(3)].into(), ["urn:a", "urn:b"][src.choice(2)].into()),
                 8 => Op::NsRemove(e, ["", "p", "q"][src.choice(3)].into()),
                 9 => Op::NsClear(e),
-                10 => Op::SetNamespace(e, ["", "p", "q"][src.choice(3)].into(), ["urn:a", "urn:b"][src.choice(2)].into()),
+                10 => {
+                    let (p, u): (String, String) = (["", "p", "q"][src.choice(3)].into(), ["urn:a", "urn:b"][src.choice(2)].into());
+                    if src.ratio(1, 4) {
+                        Op::AppendNamespace(e, p, u)
+                    } else {
+                        Op::SetNamespace(e, p, u)
+                    }
+                }
                 _ => Op::RemoveNamespace(e, ["", "p", "q"][src.choice(3)].into()),
             })
         }
@@ -352,7 +359,12 @@ fn gen_valid_op(src: &mut Src, m: &Forest, small: bool, ctx: &mut Ctx) -> Option
             Some(match &m.nodes[n].val {
                 MVal::Element(_) => {
                     if src.bool() {
-                        Op::SetElementName(n, g_qname(src, small, false))
+                        let q = g_qname(src, small, false);
+                        if src.ratio(1, 4) {
+                            Op::ElementMutSetName(n, q)
+                        } else {
+                            Op::SetElementName(n, q)
+                        }
                     } else {
                         Op::TextContentSet(n, g_text(src, small))
                     }
@@ -362,14 +374,18 @@ fn gen_valid_op(src: &mut Src, m: &Forest, small: bool, ctx: &mut Ctx) -> Option
                     n,
                     if src.ratio(1, 4) { "a--b".into() } else { g_text(src, small) },
                 ),
-                MVal::PI(..) => Op::PiSetData(
-                    n,
-                    match src.choice(3) {
+                MVal::PI(..) => {
+                    let d = match src.choice(3) {
                         0 => None,
                         1 => Some(String::new()),
                         _ => Some(g_text(src, small)),
-                    },
-                ),
+                    };
+                    if src.ratio(1, 4) {
+                        Op::PiSetTarget(n, ["pi", "t2", "xml-x"][src.choice(3)].to_string())
+                    } else {
+                        Op::PiSetData(n, d)
+                    }
+                }
                 MVal::Attribute(..) => Op::AttrNodeSet(n, g_text(src, small)),
                 MVal::Namespace(..) => Op::NsNodeSet(n, ["urn:a", "urn:b"][src.choice(2)].into()),
                 MVal::Document => Op::TextContentSet(n, g_text(src, small)),
@@ -516,8 +532,20 @@ pub fn apply_model(m: &mut Forest, op: &Op) -> Effect {
             eff
         }
         NsClear(e) => m.map_clear(*e, 0),
-        SetElementName(e, q) => {
+        SetElementName(e, q) | ElementMutSetName(e, q) => {
             m.nodes[*e].val = MVal::Element(q.clone());
+            Effect::default()
+        }
+        AppendNamespace(e, p, u) => {
+            // new_namespace_node + append_namespace_node: a new last declaration, or an update of the existing one
+            let mut eff = m.map_insert(*e, MVal::Namespace(p.clone(), u.clone()));
+            eff.ret_val = None;
+            eff
+        }
+        PiSetTarget(n, t) => {
+            if let MVal::PI(_, d) = m.nodes[*n].val.clone() {
+                m.nodes[*n].val = MVal::PI(QName::new("", t), d);
+            }
             Effect::default()
         }
         TextSet(n, s) => {
@@ -831,6 +859,8 @@ impl Property for C05 {
                             (Op::TextSet(..), _, _)
                             | (Op::CommentSet(..), _, _)
                             | (Op::PiSetData(..), _, _)
+                            | (Op::PiSetTarget(..), _, _)
+                            | (Op::ElementMutSetName(..), _, _)
                             | (Op::AttrNodeSet(..), _, _)
                             | (Op::NsNodeSet(..), _, _) => true,
                             (_, w, g) => w == g,
